@@ -82,6 +82,15 @@ def pat_term(toks):
     return ct.lst(items)
 
 
+def cs(x):
+    """Coq [string] with one character per code point (all below 256): decoded text of the
+    Latin-1 range, or a byte chunk; ct.s would print the UTF-8 bytes of a non-ASCII character"""
+    if all(32 <= ord(c) <= 126 for c in x):
+        return ct.s(x)
+    assert all(ord(c) < 256 for c in x), x
+    return "(str_of_codes [" + ";".join(str(ord(c)) for c in x) + "])"
+
+
 def watcher_term(w):
     if w["kind"] == "resp":
         return "WResp %s %s" % (pat_term(w["pattern"]), ct.s(w["response"]))
@@ -233,6 +242,7 @@ def scripted_runner_class():
             self.started = []
             self.stdin_closed = threading.Event()
             self.wait_for_close = False
+            self.raw = False        # chunks are byte strings (one character = one byte)
 
         def start(self, command, shell, env, timeout=None):
             self.started.append(command)
@@ -270,7 +280,7 @@ def scripted_runner_class():
                             self.ptr += 1
                             self.inflight = idx
                             self.delivered[sid].append(idx)
-                            return self.schedule[idx][1].encode()
+                            return self.schedule[idx][1].encode("latin-1" if self.raw else "utf-8")
                     self.cv.wait(0.0005)
 
         def read_proc_stdout(self, num_bytes):
@@ -311,7 +321,10 @@ def drive_runner(ctx, kw_list, case, sched):
     opts = case.get("opts") or {}
     r = Scripted(ctx, sched)
     r.wait_for_close = bool(case.get("eof"))
+    r.raw = bool(case.get("bytes"))
     kwargs = {"in_stream": io.StringIO("") if case.get("eof") else False, "hide": opts.get("hide", True)}
+    if r.raw:
+        kwargs["encoding"] = "utf-8"
     if "warn" in opts:
         kwargs["warn"] = opts["warn"]
     if kw_list is not None:
@@ -385,6 +398,40 @@ def all_watchers(case):
     return ws
 
 
+def text_sched(sched):
+    """reference for a schedule of BYTE reads (UTF-8; a chunk is a str with one character per
+    byte): per stream, the whole characters each read completes -- python's own incremental
+    decoder, one per stream, nothing from invoke"""
+    import codecs
+    dec = {0: codecs.getincrementaldecoder("utf-8")("replace"),
+           1: codecs.getincrementaldecoder("utf-8")("replace")}
+    return [[sid, dec[sid].decode(c.encode("latin-1"))] for sid, c in sched]
+
+
+def tcalls(case):
+    """the calls of a (normalised) case as schedules of TEXT reads"""
+    if case.get("bytes"):
+        return [text_sched(sched) for sched in case["calls"]]
+    return case["calls"]
+
+
+def valid_bytes(case):
+    """byte cases stay inside the modelled region: every stream's bytes are well-formed UTF-8
+    (so nothing is held back at EOF and nothing is replaced) of code points below 256"""
+    if not case.get("bytes"):
+        return True
+    for sched in case["calls"]:
+        for sid in (0, 1):
+            raw = "".join(c for s_, c in sched if s_ == sid)
+            try:
+                t = raw.encode("latin-1").decode("utf-8")
+            except (UnicodeDecodeError, UnicodeEncodeError):
+                return False
+            if any(ord(x) > 255 for x in t):
+                return False
+    return True
+
+
 def stream_reads(sched, sid):
     return [(i, c) for i, (s, c) in enumerate(sched) if s == sid]
 
@@ -403,7 +450,7 @@ def sig_straddle(case, obs=None):
         pats.append(w["pattern"])
         if w["kind"] == "fail":
             pats.append(w["sentinel"])
-    for sched in case["calls"]:
+    for sched in tcalls(case):
         for sid in (0, 1):
             reads = stream_reads(sched, sid)
             if not reads:
@@ -418,6 +465,99 @@ def sig_straddle(case, obs=None):
                         return True
                     lo = hi
     return False
+
+
+def cut_info(case):
+    """(some read ends inside a character, ... and the OTHER stream delivers a read before the
+    rest of that character arrives)"""
+    import codecs
+    cut = across = False
+    for sched in case["calls"]:
+        dec = {0: codecs.getincrementaldecoder("utf-8")("replace"),
+               1: codecs.getincrementaldecoder("utf-8")("replace")}
+        for i, (sid, c) in enumerate(sched):
+            dec[sid].decode(c.encode("latin-1"))
+            if dec[sid].getstate()[0]:
+                cut = True
+                if i + 1 < len(sched) and sched[i + 1][0] != sid:
+                    across = True
+    return cut, across
+
+
+# ---- output delivered as UTF-8 bytes, reads cut anywhere (also inside a character) --------
+def enc(t):
+    """text -> its UTF-8 bytes as a str with one character per byte"""
+    return t.encode("utf-8").decode("latin-1")
+
+
+MB_POOL = [
+    L("\u00ed"), L("a\u00ed"), L("\u00eda"), L("\u00ed\u00ed"), L("\u00ed?"), L("\u00bfa"),
+    [["l", "\u00ed"], ["any"]], [["any"], ["l", "\u00ed"]], [["in", "\u00ed\u00e9"], ["l", "b"]],
+    [["notin", "\u00ed"]], [["notin", "a"], ["l", "a"]], L("\u00e9"), L("a"), [["any"], ["any"]],
+]
+MB_SENTINELS = [L("\u00e9"), L("b"), L("x"), L("\u00edb"), [["l", "\u00ed"], ["any"]]]
+
+
+def merges(a, b):
+    """all interleavings of two tagged chunk lists (order within each kept)"""
+    if not a:
+        yield list(b)
+        return
+    if not b:
+        yield list(a)
+        return
+    for m in merges(a[1:], b):
+        yield [a[0]] + m
+    for m in merges(a, b[1:]):
+        yield [b[0]] + m
+
+
+_FAMILY = {}
+
+
+def bytes_family(tier):
+    """the systematic part: a short text with two-byte characters on one stream, every cut of
+    its BYTES into <= 3 reads with at least one cut inside a character, a second stream that is
+    silent / delivers ASCII / delivers a character of its own (whole or itself cut in two),
+    every interleaving of the two streams' reads, either stream in either role, every pattern
+    of MB_POOL occurring in one of the two texts"""
+    if tier in _FAMILY:
+        return _FAMILY[tier]
+    nmax, alpha = (3, "a\u00ed\u00e9") if tier == "thorough" else (3, "a\u00ed")
+    texts = ["".join(t) for n in range(1, nmax + 1) for t in itertools.product(alpha, repeat=n)
+             if any(ord(x) > 127 for x in t)]
+    texts += ["\u00bfa", "a\u00e9?", "\u00ed\u00e9", "\u00ed?\u00ed?"]
+    e, ai = enc("\u00e9"), enc("a\u00ed")
+    others = [("", []), ("x", ["x"]), ("a", ["a"]), ("\u00e9", [e]), ("\u00e9", [e[:1], e[1:]]),
+              ("a\u00edb", [ai[:2], ai[2:] + "b"]), ("\u00ed", [enc("\u00ed")])]
+    out = []
+    for t in texts:
+        raw = enc(t)
+        bounds = set()
+        k = 0
+        for x in t:
+            k += len(enc(x))
+            bounds.add(k)
+        for comp in compositions(raw):
+            if len(comp) > 3:
+                continue
+            k, inside = 0, False
+            for c in comp[:-1]:
+                k += len(c)
+                inside = inside or k not in bounds
+            if not inside:
+                continue
+            for otext, ochunks in others:
+                pats = [q for q in MB_POOL if re.search(regex(q), t, re.S) or re.search(regex(q), otext, re.S)]
+                for m in merges([[0, c] for c in comp], [[1, c] for c in ochunks]):
+                    for swap in (0, 1):
+                        sched = [[sid ^ swap, c] for sid, c in m]
+                        for q in pats:
+                            out.append({"how": "run", "bytes": True, "cfg_watchers": [],
+                                        "watchers": [{"kind": "resp", "pattern": q, "response": "y"}],
+                                        "sudo": None, "opts": {}, "calls": [sched]})
+    _FAMILY[tier] = out
+    return out
 
 
 EXN = {"ResponseNotAccepted": "XResponseNotAccepted", "Failure": "XFailure", "AuthFailure": "XAuthFailure",
@@ -547,8 +687,64 @@ class C12(Prop):
         return {"how": rng.choice(["direct", "run"]), "cfg_watchers": [], "watchers": [w], "sudo": None,
                 "opts": {}, "calls": [[[0, c] for c in cut] for cut in chosen_cuts(rng, text, 1)]}
 
+    def _mb_watchers(self, rng):
+        ws = []
+        for _ in range(rng.choice([1, 1, 2])):
+            q = rng.choice(MB_POOL + POOL[:6])
+            r = rng.choice(RESPONSES)
+            if rng.random() < 0.3:
+                ws.append({"kind": "fail", "pattern": q, "response": r, "sentinel": rng.choice(MB_SENTINELS)})
+            else:
+                ws.append({"kind": "resp", "pattern": q, "response": r})
+        return ws
+
+    def gen_bytes(self, rng):
+        """random member of the byte family: UTF-8 texts with two-byte characters on one or two
+        streams, cut at random BYTE positions, randomly interleaved; run or sudo"""
+        sudo = None
+        if rng.random() < 0.15:
+            prompt = rng.choice(["cl\u00e9:", "P\u00ed", "P:"])
+            toks = [prompt, SENTINEL, "\u00ed", "x", prompt[:2], "\u00e9"]
+            sudo = {"prompt": prompt, "password": "pw"}
+
+            def text():
+                return "".join(rng.choice(toks) for _ in range(rng.randint(1, 3)))
+        else:
+            alpha = rng.choice(["a\u00edb", "a\u00ed\u00e9?", "\u00ed\u00bf\u00ff\n", "ab\u00ed\n", "\u00eda"])
+
+            def text():
+                return "".join(rng.choice(alpha) for _ in range(rng.choice([1, 2, 3, 3, 4, 5, 6])))
+
+        def sched(two):
+            a = random_split(rng, enc(text()))
+            b = random_split(rng, enc(text())) if rng.random() < two else []
+            return interleave(rng, a, b)
+        calls = [sched(0.75)] + ([sched(0.5)] if rng.random() < 0.2 else [])
+        m = rng.random()
+        cfg_ws = self._mb_watchers(rng) if m < 0.25 else []
+        kw_ws = self._mb_watchers(rng) if (m > 0.15 or sudo) else None
+        if sudo and rng.random() < 0.5:
+            kw_ws = None
+        return {"how": "sudo" if sudo else "run", "bytes": True, "cfg_watchers": cfg_ws, "watchers": kw_ws,
+                "sudo": sudo, "opts": self._opts(rng) if rng.random() < 0.3 else {}, "calls": calls}
+
+    def family_sample(self, rng, tier):
+        fam = bytes_family(tier)
+        k = min(len(fam), 2500 if tier == "thorough" else 280)
+        for c in rng.sample(fam, k):
+            c = dict(c)
+            if rng.random() < 0.25:
+                w = c["watchers"][0]
+                c["watchers"] = [{"kind": "fail", "pattern": w["pattern"], "response": "y",
+                                  "sentinel": rng.choice(MB_SENTINELS)}]
+            elif rng.random() < 0.2:
+                c["watchers"] = c["watchers"] + [{"kind": "resp", "pattern": rng.choice(MB_POOL), "response": "n\n"}]
+            yield c
+
     def gen_one(self, rng):
         k = rng.random()
+        if k > 0.94:
+            return self.gen_bytes(rng)
         if k < 0.14:
             return self.gen_sudo(rng)
         if k < 0.17:
@@ -569,7 +765,13 @@ class C12(Prop):
                 "opts": self._opts(rng), "calls": calls}
 
     def generate(self, rng, tier, n):
-        for _ in range(n):
+        k = 0
+        for c in self.family_sample(rng, tier):
+            if k >= n // 4:
+                break
+            k += 1
+            yield c
+        for _ in range(n - k):
             yield self.gen_one(rng)
 
     def _single(self, p, comp, kind="resp", sen=None):
@@ -610,6 +812,12 @@ class C12(Prop):
                     for p in (L("\r\n"), [["any"], ["l", "\n"]], [["any"], ["l", "\r"]], L("\n"), [["notin", "a"]]):
                         if re.search(regex(p), s, re.S):
                             yield self._single(p, comp)
+        # output as UTF-8 bytes: the texts 'aí' / 'í?í?' of the byte family, every member
+        want = [enc("a\u00ed"), enc("\u00ed?\u00ed?")] if tier == "thorough" else [enc("a\u00ed")]
+        for c in bytes_family("quick"):
+            sched = c["calls"][0]
+            if any("".join(x for s_, x in sched if s_ == sid) in want for sid in (0, 1)):
+                yield c
         fmax = 4 if tier == "thorough" else 3
         pairs = [(L("a"), L("b")), (L("ab"), L("b")), (L("a"), L("ba")), ([["any"]], L("\n"))]
         for n in range(2, fmax + 1):
@@ -625,7 +833,7 @@ class C12(Prop):
         calls = run_case(case)
         occ = []
         seen = set()
-        for sched in case["calls"]:
+        for sched in tcalls(case):
             for sid in (0, 1):
                 text = "".join(c for _, c in stream_reads(sched, sid))
                 for w in all_watchers(case):
@@ -644,7 +852,7 @@ class C12(Prop):
         su = case.get("sudo")
         if su:
             sudo = "(Some (mkSudo %s %s %s))" % (
-                ct.s(su["prompt"]), ct.opt(ct.s(su["password"]) if su.get("password") is not None else None),
+                cs(su["prompt"]), ct.opt(ct.s(su["password"]) if su.get("password") is not None else None),
                 ct.opt(ct.opt(ct.s(su["kw_password"]) if su["kw_password"] is not None else None)
                        if "kw_password" in su else None))
         else:
@@ -652,17 +860,17 @@ class C12(Prop):
         calls = []
         for sched, o in zip(case["calls"], obs["calls"]):
             calls.append("(mkCall %s %s %s %s)" % (
-                ct.lst([ct.pair(ct.b(bool(s)), ct.s(c)) for s, c in sched]),
+                ct.lst([ct.pair(ct.b(bool(s)), cs(c)) for s, c in sched]),
                 ct.lst([ct.strs(w) for w in o["writes"]]),
                 ct.pair(ct.b(o["raised"][0]), ct.b(o["raised"][1])),
                 ct.opt(EXN.get(o["exc"], "XOther") if o["exc"] is not None else None)))
-        occ = ct.lst([ct.pair(ct.pair(pat_term(t), ct.s(x)), ct.n(k)) for t, x, k in obs["occ"]])
-        return "(mk %s %s %s %s %s %s %s)" % (cfg, kw, sudo, VIA[case["how"]], ct.b(bool(case.get("eof"))),
-                                              ct.lst(calls), occ)
+        occ = ct.lst([ct.pair(ct.pair(pat_term(t), cs(x)), ct.n(k)) for t, x, k in obs["occ"]])
+        return "(mk %s %s %s %s %s %s %s %s)" % (cfg, kw, sudo, VIA[case["how"]], ct.b(bool(case.get("eof"))),
+                                                 ct.lst(calls), occ, ct.b(bool(case.get("bytes"))))
 
     def nontrivial(self, case, obs):
         case = norm(case)
-        for sched in case["calls"]:
+        for sched in tcalls(case):
             for sid in (0, 1):
                 reads = stream_reads(sched, sid)
                 if len(reads) < 2:
@@ -683,6 +891,13 @@ class C12(Prop):
             tag += "/warn"
         if case.get("eof"):
             tag += "/eof"
+        if case.get("bytes"):
+            tag += "/bytes"
+            cut, across = cut_info(case)
+            if cut:
+                tag += "/cut-in-char"
+            if across:
+                tag += "/other-stream-in-between"
         if any(o["exc"] for o in obs["calls"]):
             tag += "/raised"
         if sig_straddle(case):
@@ -696,7 +911,7 @@ class C12(Prop):
         # EOF and some watcher has something to answer.
         case = norm(case)
         if case.get("eof") and case["how"] != "direct":
-            for sched in case["calls"]:
+            for sched in tcalls(case):
                 for sid in (0, 1):
                     text = "".join(c for _, c in stream_reads(sched, sid))
                     if any(re.search(regex(w["pattern"]), text, re.S) for w in all_watchers(case)):
@@ -705,6 +920,16 @@ class C12(Prop):
 
     def shrink_candidates(self, case):
         case = norm(case)
+        if case.get("bytes"):
+            # the same reads delivered as text: still failing = nothing to do with the bytes
+            # (a read that completes no character is no text read at all: an empty read is EOF)
+            yield {k: v for k, v in dict(case, calls=[[e for e in sc if e[1] != ""] for sc in tcalls(case)]).items()
+                   if k != "bytes"}
+        for c in self._shrink_candidates(case):
+            if not c.get("bytes") or (c["how"] != "direct" and valid_bytes(c)):
+                yield c
+
+    def _shrink_candidates(self, case):
         calls = case["calls"]
         if len(calls) > 1:
             for i in range(len(calls)):
@@ -757,10 +982,12 @@ class C12(Prop):
                 texts = {0: "".join(x for s, x in sched if s == 0), 1: "".join(x for s, x in sched if s == 1)}
                 if rng.random() < 0.3:
                     texts[rng.choice([0, 1])] += rng.choice(["a", "b", "ab", "\n"])
+                if case.get("bytes") and rng.random() < 0.3:
+                    texts[rng.choice([0, 1])] += enc(rng.choice(["\u00ed", "a\u00ed", "\u00e9"]))
                 new_calls.append(interleave(rng, random_split(rng, texts[0]), random_split(rng, texts[1])))
             c["calls"] = new_calls
             if rng.random() < 0.3 and case["how"] != "sudo":
-                c["watchers"] = self._watchers(rng)
+                c["watchers"] = self._mb_watchers(rng) if case.get("bytes") else self._watchers(rng)
             yield c
 
     # ---- real pipes ----------------------------------------------------------
